@@ -137,6 +137,10 @@ func flowModule() *module {
 		{ID: "a5queue", Res: "a", mk: func() interface{} { return &flow.Rule{ID: "a5", Resource: "a", Threshold: 5, MaxQueueingTimeMs: 7} }},
 		{ID: "a5interval", Res: "a", mk: func() interface{} { return &flow.Rule{ID: "a5", Resource: "a", Threshold: 5, StatIntervalInMs: 2000} }},
 		{ID: "a5ref", Res: "a", mk: func() interface{} { return &flow.Rule{ID: "a5", Resource: "a", Threshold: 5, RefResource: "zz"} }},
+		// a warm-up rule with the cold factor left unset (0) and the same rule with an explicit factor of 10
+		{ID: "a50warm10", Res: "a", mk: func() interface{} {
+			return &flow.Rule{ID: "a50warm", Resource: "a", Threshold: 50, TokenCalculateStrategy: flow.WarmUp, WarmUpPeriodSec: 1, WarmUpColdFactor: 10}
+		}},
 	}
 	conv := func(rs []interface{}) []*flow.Rule {
 		out := make([]*flow.Rule, 0, len(rs))
@@ -152,10 +156,10 @@ func flowModule() *module {
 		}
 		return out
 	}
-	thr := map[string]float64{"a5": 5, "a0": 0, "a50warm": 50, "b0": 0, "aMem": 5, "aMemHi": 5, "aMemLo": 5, "a5queue": 5, "a5interval": 5, "a5ref": 5}
+	thr := map[string]float64{"a5": 5, "a0": 0, "a50warm": 50, "b0": 0, "aMem": 5, "aMemHi": 5, "aMemLo": 5, "a5queue": 5, "a5interval": 5, "a5ref": 5, "a50warm10": 5} // a50warm10: cold start, 50/10
 	return &module{
 		Name: "flow", Specs: specs, Resources: []string{"a", "b"},
-		Lists:    append(listsFor([]int{0, 1, 2}, 3, []int{4, 5, 6, 7, 8, 9, 10, 11}, 12), []int{13}, []int{14}, []int{15}, []int{16}, []int{17}, []int{18}),
+		Lists:    append(listsFor([]int{0, 1, 2}, 3, []int{4, 5, 6, 7, 8, 9, 10, 11}, 12), []int{13}, []int{14}, []int{15}, []int{16}, []int{17}, []int{18}, []int{19}, []int{2}),
 		Load:     func(rs []interface{}) (bool, error) { return flow.LoadRules(conv(rs)) },
 		LoadRes:  func(res string, rs []interface{}) (bool, error) { return flow.LoadRulesOfResource(res, conv(rs)) },
 		Clear:    flow.ClearRules,
